@@ -1,4 +1,4 @@
-From RV Require Import Base.Prelude Run.RunInflights Run.RunQuorum Run.RunMemStorage Run.RunConfChange Run.RunRaftLog Run.RunNode Run.RunPElection Run.RunPLog.
+From RV Require Import Base.Prelude Run.RunInflights Run.RunQuorum Run.RunMemStorage Run.RunConfChange Run.RunRaftLog Run.RunNode Run.RunPElection Run.RunPLog Run.RunPRead.
 From Coq Require Import Extraction ExtrOcamlBasic.
 Extraction Language OCaml.
-Extraction "model.ml" run_inflights run_quorum run_memstorage run_confchange run_raftlog run_node run_pelection run_plog N.of_nat N.to_nat N.div_eucl N.mul N.add.
+Extraction "model.ml" run_inflights run_quorum run_memstorage run_confchange run_raftlog run_node run_pelection run_plog run_pread N.of_nat N.to_nat N.div_eucl N.mul N.add.
